@@ -35,20 +35,23 @@ Proof.
   intro e. apply is_cpu_thread_scale.
 Qed.
 
+Lemma host_part_scale k l e : host_part (scale_evs k l) (scale_ev k e) = scale_evs k (host_part l e).
+Proof. unfold host_part. rewrite thread_of_scale. unfold scale_evs. apply filter_map_comm. reflexivity. Qed.
+
 Lemma host_edges_scale k l : 0 < k -> host_edges (scale_evs k l) = host_edges l.
 Proof.
   intro Hk. unfold host_edges. rewrite cpu_thread_heads_scale.
   change (scale_evs k (cpu_thread_heads l)) with (map (scale_ev k) (cpu_thread_heads l)). rewrite flat_map_map.
-  apply flat_map_ext_eq. intro h. rewrite thread_of_scale. apply (C03_scale k (thread_of l h) Hk).
+  apply flat_map_ext_eq. intro h. rewrite host_part_scale. apply (C03_scale k (host_part l h) Hk).
 Qed.
 
 
 Lemma in_cpu_thread_scale k l i : in_cpu_thread (scale_evs k l) i = in_cpu_thread l i.
 Proof.
   unfold in_cpu_thread.
-  transitivity (existsb (fun e => (idx e =? i) && is_cpu_thread (scale_evs k l) e) (map (scale_ev k) l)); [reflexivity|].
+  transitivity (existsb (fun e => (idx e =? i) && is_cpu_thread (scale_evs k l) e && (stream e =? -1)) (map (scale_ev k) l)); [reflexivity|].
   rewrite existsb_map_f. apply existsb_ext_eq. intro e.
-  change (idx (scale_ev k e)) with (idx e). rewrite is_cpu_thread_scale. reflexivity.
+  change (idx (scale_ev k e)) with (idx e). change (stream (scale_ev k e)) with (stream e). rewrite is_cpu_thread_scale. reflexivity.
 Qed.
 
 Lemma dev_edges_scale k l : dev_edges (scale_evs k l) = dev_edges l.
